@@ -9,8 +9,10 @@ import (
 	"fmt"
 	"os"
 	"reflect"
+	"runtime"
 	"runtime/debug"
 	"strings"
+	"time"
 
 	wb "verif/harness/wirebridge"
 )
@@ -22,17 +24,18 @@ import (
 //   - each worker is quiet (one case at a time), so runtime.MemStats.TotalAlloc deltas measure the case.
 
 type job struct {
-	Kind     string   `json:"kind"` // decode | json
-	Lines    string   `json:"lines"`
-	W        int      `json:"w"`
-	Of       int      `json:"of"`
-	Start    [2]int   `json:"start"` // first (unit, case) to execute
-	Skip     []string `json:"skip"`  // keys whose cases are not executed again (they kill or hang the process)
-	Seed     int64    `json:"seed"`
-	Thorough bool     `json:"thorough"`
-	Out      string   `json:"out"`
-	Progress string   `json:"progress"`
-	One      *oneCase `json:"one,omitempty"` // replay: exactly this input
+	Kind       string   `json:"kind"` // decode | json
+	Lines      string   `json:"lines"`
+	W          int      `json:"w"`
+	Of         int      `json:"of"`
+	Start      [2]int   `json:"start"` // first (unit, case) to execute
+	Skip       []string `json:"skip"`  // keys whose cases are not executed again (they kill or hang the process)
+	Seed       int64    `json:"seed"`
+	Thorough   bool     `json:"thorough"`
+	Out        string   `json:"out"`
+	Progress   string   `json:"progress"`
+	One        *oneCase `json:"one,omitempty"`         // replay: exactly this input
+	DeadlineMs int      `json:"deadline_ms,omitempty"` // canary jobs: a short deadline
 }
 
 // oneCase is a saved case (replay files): an entry point, a type and the input.
@@ -55,6 +58,7 @@ type unitLine struct {
 	Skipped int            `json:"skipped"`
 	Classes map[string]int `json:"classes"`
 	Remeas  int            `json:"remeasured"`
+	Generic int            `json:"generic_json_inflation"` // over the bound, but allocated by encoding/json itself (element size x element count)
 }
 
 type violLine struct {
@@ -74,6 +78,9 @@ type worker struct {
 	skip   map[string]bool
 	single bool // execute exactly one case (reproduction of a process death)
 	seenV  map[string]int
+	// costly[class]: failures of the class that cost a deadline or three measured runs; beyond the budget the class is not
+	// executed any more in this worker (a tree whose basic decoder is broken would otherwise fail a million times)
+	costly map[string]int
 	pbuf   [16]byte
 }
 
@@ -144,13 +151,23 @@ func workerMain(jobPath string) {
 		fmt.Fprintln(os.Stderr, "worker: ", err)
 		os.Exit(3)
 	}
-	w := &worker{j: j, cat: cat, g: newGuard(), out: bufio.NewWriter(outF), outF: outF, prog: prog, skip: map[string]bool{}, seenV: map[string]int{}}
+	w := &worker{j: j, cat: cat, g: newGuard(), out: bufio.NewWriter(outF), outF: outF, prog: prog, skip: map[string]bool{}, seenV: map[string]int{}, costly: map[string]int{}}
 	for _, k := range j.Skip {
 		w.skip[k] = true
 	}
 	w.single = w.skip["@single"]
 	debug.SetGCPercent(100)
+	runtime.MemProfileRate = 4096 // fine-grained allocation profile: it names the code that over-allocates
+	if j.DeadlineMs > 0 {
+		deadline = time.Duration(j.DeadlineMs) * time.Millisecond
+	}
 	switch j.Kind {
+	case "canary":
+		w.canaries()
+	case "canary-kill":
+		w.progress(0, 0)
+		go func() { panic("canary: a panic outside any recover kills the process") }()
+		time.Sleep(2 * time.Second)
 	case "one":
 		w.runOne()
 	case "decode":
@@ -166,6 +183,9 @@ func workerMain(jobPath string) {
 }
 
 const batchSize = 32
+
+// costlyBudget: hangs + over-allocations of one corruption class a worker pays for before it stops executing the class.
+const costlyBudget = 12
 
 // item is one prepared case of a batch.
 type item struct {
@@ -194,6 +214,7 @@ func (w *worker) runBatch(unit int, items []item, ul *unitLine) {
 			if o2.TimedOut {
 				it.fail("hang", o2, 0)
 				w.skip[it.key] = true
+				w.costly[it.class]++
 			} else if o2.Panic != "" {
 				it.fail("panic", o2, 0)
 			}
@@ -220,9 +241,15 @@ func (w *worker) runBatch(unit int, items []item, ul *unitLine) {
 		ul.Remeas++
 		o, a = w.g.confirmAlloc(it.run)
 		if !o.bad() && a > allocBound(it.n) {
-			o.Stack = w.g.allocStack(it.run) // who allocates: names the failing code whatever object it was reached through
+			var generic bool
+			o.Stack, generic = w.g.allocStackG(it.run) // who allocates: names the failing code whatever object it was reached through
+			if generic {
+				ul.Generic++
+				continue
+			}
 			it.fail("alloc", o, a)
 			w.skip[it.key] = true // the class is reported; its further cases would each cost three measured runs
+			w.costly[it.class]++
 		}
 	}
 }
@@ -299,7 +326,7 @@ func (w *worker) decodeAll() {
 			for ci := lo; ci < hi; ci++ {
 				dc := w.cat.caseAt(sh, ci)
 				key := dc.key()
-				if w.skip[key] {
+				if w.skip[key] || w.costly[dc.Class] >= costlyBudget {
 					ul.Skipped++
 					continue
 				}
@@ -338,6 +365,9 @@ func (w *worker) myRoots() []jroot {
 // without a stack (allocation, hang) the root type and the place in the document do.
 func jsonKey(entry, root, leaf, where, class string, o outcome) string {
 	if site := panicSite(o.Stack); site != "" {
+		if entry == "json-direct" {
+			entry = "json" // the same code, reached without encoding/json in front
+		}
 		return entry + "/" + site + "/" + class
 	}
 	return jsonSkipKey(entry, root, leaf, where, class)
@@ -456,6 +486,28 @@ func (w *worker) textUnit(u int, rt jroot, first int) {
 		return !w.single
 	})
 	flush()
+	w.emit(ul)
+}
+
+// canaries: synthetic entry points with known behaviour go through the same guard as the real ones (self-test of the
+// verdict machinery): a panic, an allocation of 8 MiB for 16 bytes, a call that outlives the deadline, and a benign one.
+var canarySink [][]byte
+
+func (w *worker) canaries() {
+	ul := &unitLine{K: "unit", Entry: "canary", Type: "canary", Classes: map[string]int{}}
+	in := make([]byte, 16)
+	mk := func(i int, name string, run func() error) item {
+		return item{idx: i, key: "canary/" + name, n: len(in), class: name, run: run, fail: func(kind string, o outcome, alloc uint64) {
+			w.violation("canary/"+name+"/"+kind, describe(kind, o, alloc, len(in)), map[string]any{"stack": o.Stack})
+		}}
+	}
+	items := []item{
+		mk(0, "benign", func() error { _ = make([]byte, 1000); return fmt.Errorf("rejected") }),
+		mk(1, "panics", func() error { var p *oneCase; _ = p.Hex; return nil }),
+		mk(2, "allocates", func() error { canarySink = append(canarySink[:0], make([]byte, 8<<20)); return nil }),
+		mk(3, "hangs", func() error { time.Sleep(3 * deadline); return nil }),
+	}
+	w.runBatch(0, items, ul)
 	w.emit(ul)
 }
 
